@@ -122,6 +122,11 @@ class ListProxy(list, ContainerValueMixin):
         )
 
     def _get_item_position(self, item: Any) -> str:
+        # identity first: config types compare equal by content, list.index() would report the
+        # position of the first *equal* item
+        for index, candidate in enumerate(self):
+            if candidate is item:
+                return str(index)
         try:
             return str(self.index(item))
         except:  # noqa: E722
